@@ -128,12 +128,14 @@ class ExtendedEOF(EOF):
         shift = np.arange(embedding) * tau
         X_extended = []
         for i in shift:
-            X_extended.append(X.shift(sample=-i))
+            X_extended.append(X.shift({self.sample_name: -i}))
         X_extended = xr.concat(X_extended, dim="embedding")
         n_samples_cut = (embedding - 1) * tau
         # (with a single embedding nothing is cut; slice(None, -0) would be empty)
         if n_samples_cut > 0:
-            X_extended = X_extended.isel(sample=slice(None, -n_samples_cut))
+            X_extended = X_extended.isel(
+                {self.sample_name: slice(None, -n_samples_cut)}
+            )
         X_extended.coords.update({"embedding": shift})
 
         # Perform standard PCA on extended data
@@ -161,7 +163,7 @@ class ExtendedEOF(EOF):
         if self.pca:
             self.data["components"] = xr.dot(
                 self.pca.data["components"].rename({"mode": "temp"}),
-                self.data["components"].rename({"feature": "temp"}),
+                self.data["components"].rename({self.feature_name: "temp"}),
                 dims="temp",
             )
 
